@@ -90,13 +90,41 @@ CHECKS = {
         technique="TLA+ spec + TLC exhaustive (with a must-fail variant); TLC histories replayed on the real executor; TLC trace validation",
         design_ref="4.2, 5/C30",
     ),
+    "C17": dict(
+        category="model_checking",
+        text="Search.tla models the loop shape shared by all generation algorithms with the stopping conditions "
+             "as counters and limits; TLC checks IterBound, NoIterationAfterBudget and termination, and the "
+             "variants with `>` instead of `>=` or with a loop that does not consult the conditions must fail. "
+             "Real in-process search runs (DYNAMOSA, MOSA, MIO, WHOLE_SUITE, RANDOM, random test-suite and "
+             "test-case search; budgets of 1..10 iterations, 1..25 test executions, 30..60 statement executions) "
+             "are recorded at every resources_left() consultation and iteration boundary with the conditions' own "
+             "counters; TLC validates every run (SearchTrace.tla), recomputing 'budget reached' from the counters.",
+        note="Iteration boundary = after_search_iteration; an iteration starts at the first successful loop test "
+             "after the previous boundary. Time and memory conditions are not varied (iteration/execution/"
+             "statement budgets as the property states).",
+        technique="TLA+ spec + TLC (must-fail variants); recorded real search runs validated by TLC",
+        design_ref="4.12, 5/C17",
+    ),
+    "C35": dict(
+        category="model_checking",
+        text="Report.tla checks for all small modules and traces that 'annotate every line, then sum' equals 'count "
+             "over the registries'. End-to-end runs (6 corpus modules x MOSA/WHOLE_SUITE/MIO/RANDOM/DYNAMOSA x "
+             "BRANCH/LINE metrics x seeds) record the report object, the coverage values Pynguin tracked and "
+             "counts recomputed from the final suite's merged execution trace; TLC validates every generated suite "
+             "(ReportTrace.tla: TotalsEqualTracked, TotalsEqualRecomputed, AnnotationsSumToTotals, "
+             "LineShownCoveredIffCovered).",
+        note="Suites come from short searches (3 iterations) on small deterministic modules; floats are compared as "
+             "rationals with denominator <= 10^6.",
+        technique="TLA+ spec + TLC; recorded end-to-end runs validated by TLC",
+        design_ref="4.13, 5/C35",
+    ),
 }
 
 NOT_BUILT_REASON = "not built yet in this round (planned, see DESIGN.md section 5); no claim is made"
 NOT_APPLICABLE = {}
 
 # builder-delivered checks are only claimed once reviewed and listed here
-READY = {"C27", "C10", "C11", "C14", "C28"}
+READY = {"C27", "C10", "C11", "C14", "C28", "C20", "C23", "C13"}
 
 
 def _load_from_notes() -> None:
